@@ -4,7 +4,8 @@ set -e
 cd "$(dirname "$0")"
 OUT=../build/driver
 mkdir -p $OUT
-cp ../coq/model.ml ../coq/model.mli main.ml $OUT/
+cp ../coq/model.ml ../coq/model.mli util.ml cmd_*.ml main.ml $OUT/ 2>/dev/null || cp ../coq/model.ml ../coq/model.mli util.ml main.ml $OUT/
 cd $OUT
-ocamlfind ocamlopt -O2 -w -a -package str model.mli model.ml main.ml -o model_driver 2>/dev/null || \
-ocamlfind ocamlopt -w -a model.mli model.ml main.ml -o model_driver
+CMDS=$(ls cmd_*.ml 2>/dev/null || true)
+ocamlfind ocamlopt -O3 -w -a model.mli model.ml util.ml $CMDS main.ml -o model_driver 2>/dev/null || \
+ocamlfind ocamlopt -w -a model.mli model.ml util.ml $CMDS main.ml -o model_driver
